@@ -55,13 +55,18 @@ Definition varint_dec (l : list N) : option (N * list N) :=
   | None => None
   end.
 
+(* the low seven bits and the rest, as the code computes them (`n as u8 | 0x80`, `n >>= 7`);
+   Proofs.lo7_mod / hi7_div: these are n mod 128 and n / 128 *)
+Definition lo7 (n : N) : N := N.land n 127.
+Definition hi7 (n : N) : N := N.shiftr n 7.
+
 (* unsigned_varint::encode::u64 *)
 Fixpoint varint_enc_f (fuel : nat) (n : N) : list N :=
   if n <? 128 then [n]
   else
     match fuel with
-    | O => [n mod 128]
-    | S f => (128 + n mod 128) :: varint_enc_f f (n / 128)
+    | O => [lo7 n]
+    | S f => (128 + lo7 n) :: varint_enc_f f (hi7 n)
     end.
 
 Definition varint_enc (n : N) : list N := varint_enc_f 9 n.
@@ -170,43 +175,45 @@ Definition EMPTY_MESSAGE_LEN : N := 2.
 Fixpoint sum (l : list N) : N := match l with [] => 0 | x :: t => x + sum t end.
 
 Section Batching.
-  Variable A : Type.             (* a queued block *)
-  Variable dlen : A -> N.        (* length of its data *)
-  Variable elen : A -> N.        (* its encoded size as a payload entry *)
+  Variable A : Type.             (* a queued entry: a block, a presence *)
+  Variable dlen : A -> N.        (* length of its data (blocks; 0 otherwise) *)
+  Variable elen : A -> N.        (* its encoded size as an entry of the message *)
+  Variable mlen : N -> N.        (* encoded length of a message whose entries take that many bytes *)
   Variable mb : N.               (* max_batch_size *)
   Variable mm : N.               (* max_message_size *)
 
-  (* encoded length of blocks_message(batch) *)
-  Definition message_len (b : list A) : N := EMPTY_MESSAGE_LEN + sum (map elen b).
+  (* encoded length of the message built from a batch *)
+  Definition message_len (b : list A) : N := mlen (sum (map elen b)).
 
-  (* a block that can be sent at all: alone it respects both limits *)
+  (* an entry that can be sent at all: alone it respects both limits *)
   Definition fits (a : A) : bool :=
-    (dlen a <=? mb) && (EMPTY_MESSAGE_LEN + elen a <=? mm).
+    (dlen a <=? mb) && (mlen (elen a) <=? mm).
 
-  (* first loop of extract_next_batch: pop blocks that can never be sent *)
+  (* first loop of extract_next_batch: pop entries that can never be sent *)
   Fixpoint drop_unfit (l : list A) : list A :=
     match l with
     | [] => []
     | a :: t => if fits a then l else drop_unfit t
     end.
 
-  (* second loop: count the blocks of the next batch; returns (batch, rest) *)
-  Fixpoint take_batch (tot msg : N) (l : list A) : list A * list A :=
+  (* second loop: count the entries of the next batch (tot = data bytes, acc = entry bytes so
+     far); returns (batch, rest) *)
+  Fixpoint take_batch (tot acc : N) (l : list A) : list A * list A :=
     match l with
     | [] => ([], [])
     | a :: t =>
-        if (mb <? tot + dlen a) || (mm <? msg + elen a) then ([], l)
-        else let '(b, r) := take_batch (tot + dlen a) (msg + elen a) t in (a :: b, r)
+        if (mb <? tot + dlen a) || (mm <? mlen (acc + elen a)) then ([], l)
+        else let '(b, r) := take_batch (tot + dlen a) (acc + elen a) t in (a :: b, r)
     end.
 
   (* extract_next_batch: None when the queue (after dropping) is empty *)
   Definition extract_next_batch (l : list A) : option (list A * list A) :=
     match drop_unfit l with
     | [] => None
-    | l' => Some (take_batch 0 EMPTY_MESSAGE_LEN l')
+    | l' => Some (take_batch 0 0 l')
     end.
 
-  (* the `while let Some(batch) = extract_next_batch(..)` loop of send_response *)
+  (* the `while let Some(batch) = extract_next_batch(..)` loops of send_response *)
   Fixpoint batches (fuel : nat) (l : list A) : list (list A) :=
     match fuel with
     | O => []
@@ -225,7 +232,13 @@ Section Batching.
     match b with [] => false | _ => message_len b <=? mm end.
 
   Definition sent_batches (l : list A) : list (list A) := filter sendable (all_batches l).
+
 End Batching.
+
+(* blocks_message / presences_message: the empty wantlist, then the entries *)
+Definition blk_mlen (s : N) : N := EMPTY_MESSAGE_LEN + s.
+(* the message of send_request: the entries wrapped in the wantlist field *)
+Definition req_mlen (s : N) : N := 1 + vlen s + s.
 
 (* a queued block as send_response sees it: identity, CID, data length *)
 Record sblock := mkSB { sb_id : N; sb_cid : cid; sb_dlen : N }.
@@ -235,7 +248,7 @@ Definition sb_elen (b : sblock) : N := entry_len (N.of_nat (length (sb_prefix b)
 
 (* the blocks of send_response(entries) as they go out, message by message *)
 Definition send_response_blocks (mb mm : N) (l : list sblock) : list (list sblock) :=
-  sent_batches sblock sb_dlen sb_elen mb mm l.
+  sent_batches sblock sb_dlen sb_elen blk_mlen mb mm l.
 
 (* ------------------------------------------------------------------ CID bytes *)
 
@@ -472,17 +485,19 @@ Definition sp_elen (p : spres) : N :=
 (* the presences of send_response(entries) as they go out, message by message: the batching of
    extract_next_presence_batch is the block batching without a data limit *)
 Definition send_response_presences (mm : N) (l : list spres) : list (list spres) :=
-  sent_batches spres (fun _ => 0) sp_elen 0 mm l.
+  sent_batches spres (fun _ => 0) sp_elen blk_mlen 0 mm l.
 
 (* one entry of `repeated Entry entries = 1` of the wantlist built by send_request:
    block bytes, priority = 1 (tag + byte), wantType (omitted when 0 = Block) *)
 Definition want_elen (cidlen wtype : N) : N :=
   let b := field_len cidlen + 2 + (if wtype =? 0 then 0 else 2) in 1 + vlen b + b.
 
-(* encoded length of the message send_request builds: only the wantlist field *)
+Definition sw_elen (cw : cid * want_type) : N :=
+  want_elen (N.of_nat (length (cid_to_bytes (fst cw)))) (want_code (snd cw)).
+
+(* encoded length of the message send_request builds: only the wantlist field, all wants in it *)
 Definition request_len (cids : list (cid * want_type)) : N :=
-  let w := sum (map (fun cw => want_elen (N.of_nat (length (cid_to_bytes (fst cw)))) (want_code (snd cw))) cids) in
-  1 + vlen w + w.
+  message_len (cid * want_type) sw_elen req_mlen cids.
 
 (* ------------------------------------------------------------------ the event loop: actions and substreams *)
 
@@ -502,14 +517,15 @@ Inductive omsg :=
 Definition omsg_len (m : omsg) : N :=
   match m with
   | ORequest cids => request_len cids
-  | OPresences l => message_len spres sp_elen l
-  | OBlocks l => message_len sblock sb_elen l
+  | OPresences l => message_len spres sp_elen blk_mlen l
+  | OBlocks l => message_len sblock sb_elen blk_mlen l
   end.
 
 (* a frame of the unsigned-varint codec: length prefix + message *)
 Definition frame_len (m : omsg) : N := vlen (omsg_len m) + omsg_len m.
 
-(* send_request writes one message, send_response the presence messages then the block messages *)
+(* send_request writes one message with all wants (whatever its size), send_response the presence
+   messages then the block messages *)
 Definition action_msgs (mb mm : N) (a : action) : list omsg :=
   match a with
   | ARequest cids => [ORequest cids]
@@ -542,15 +558,36 @@ Fixpoint write_msgs (mm : N) (c : carrier) (ms : list omsg) : list omsg * N * ca
         end
   end.
 
-(* per-peer state of the loop (the connection is established) *)
+(* per-peer state of the loop *)
 Record pstate := mkPS {
   ps_inb : bool;                 (* `inbound` holds a substream of this peer *)
   ps_out : option carrier;       (* `outbound` holds a substream to this peer *)
   ps_pend : list action;         (* `pending_outbound` *)
-  ps_opening : bool              (* an outbound substream was requested (`pending_substreams`) *)
+  ps_opening : bool;             (* an outbound substream was requested (`pending_substreams`) *)
+  ps_conn : N;                   (* the TransportService's connection to the peer: 0 none,
+                                    1 usable, 2 present but dead (open_substream fails) *)
+  ps_dial : bool;                (* `pending_dials` *)
+  ps_mgr : N                     (* what TransportManagerHandle::dial answers for the peer:
+                                    0 NoAddressAvailable, 1 Ok (a dial is queued), 2 AlreadyConnected,
+                                    3 Ok (a dial is in progress) *)
 }.
 
-Definition ps_init : pstate := mkPS false None [] false.
+Definition ps_init : pstate := mkPS false None [] false 1 false 0.
+
+Definition set_inb (s : pstate) (x : bool) : pstate :=
+  mkPS x (ps_out s) (ps_pend s) (ps_opening s) (ps_conn s) (ps_dial s) (ps_mgr s).
+Definition set_out (s : pstate) (x : option carrier) : pstate :=
+  mkPS (ps_inb s) x (ps_pend s) (ps_opening s) (ps_conn s) (ps_dial s) (ps_mgr s).
+Definition set_pend (s : pstate) (x : list action) : pstate :=
+  mkPS (ps_inb s) (ps_out s) x (ps_opening s) (ps_conn s) (ps_dial s) (ps_mgr s).
+Definition set_opening (s : pstate) (x : bool) : pstate :=
+  mkPS (ps_inb s) (ps_out s) (ps_pend s) x (ps_conn s) (ps_dial s) (ps_mgr s).
+Definition set_conn (s : pstate) (x : N) : pstate :=
+  mkPS (ps_inb s) (ps_out s) (ps_pend s) (ps_opening s) x (ps_dial s) (ps_mgr s).
+Definition set_dial (s : pstate) (x : bool) : pstate :=
+  mkPS (ps_inb s) (ps_out s) (ps_pend s) (ps_opening s) (ps_conn s) x (ps_mgr s).
+Definition set_mgr (s : pstate) (x : N) : pstate :=
+  mkPS (ps_inb s) (ps_out s) (ps_pend s) (ps_opening s) (ps_conn s) (ps_dial s) x.
 
 (* what one step wrote: complete messages and the bytes of a partial one *)
 Definition written := (list omsg * N)%type.
@@ -567,26 +604,153 @@ Fixpoint write_actions (mb mm : N) (c : carrier) (acts : list action) : list oms
       else (done, part, c', false)
   end.
 
+(* open_substream_or_dial: open a substream when the service can; otherwise dial — a dial that is
+   accepted parks the queue until ConnectionEstablished / DialFailure; AlreadyConnected leads to a
+   second open_substream that fails like the first; any failure drops the whole queue *)
+Definition open_or_dial (s : pstate) : pstate :=
+  if ps_conn s =? 1 then set_opening s true
+  else if (ps_mgr s =? 1) || (ps_mgr s =? 3) then set_dial s true
+  else set_pend s [].
+
+(* the tail of on_bitswap_request / on_bitswap_response: queue the action, and ask for a substream
+   if nothing was queued *)
+Definition queue_action (s : pstate) (a : action) : pstate :=
+  let s1 := set_pend s (ps_pend s ++ [a]) in
+  match ps_pend s with [] => open_or_dial s1 | _ => s1 end.
+
 (* on_bitswap_request / on_bitswap_response *)
 Definition send_action (mb mm : N) (s : pstate) (a : action) : pstate * written :=
-  let queue (s0 : pstate) :=
-    mkPS (ps_inb s0) (ps_out s0) (ps_pend s0 ++ [a])
-         (match ps_pend s0 with [] => true | _ => ps_opening s0 end) in
   match ps_out s with
   | Some c =>
       let '(done, part, c', ok) := write_msgs mm c (action_msgs mb mm a) in
-      if ok then (mkPS (ps_inb s) (Some c') (ps_pend s) (ps_opening s), (done, part))
-      else (queue (mkPS (ps_inb s) None (ps_pend s) (ps_opening s)), (done, part))
-  | None => (queue s, ([], 0))
+      if ok then (set_out s (Some c'), (done, part))
+      else (queue_action (set_out s None) a, (done, part))
+  | None => (queue_action s a, ([], 0))
   end.
 
 (* TransportEvent::SubstreamOpened (outbound) for the requested substream *)
 Definition outbound_opened (mb mm : N) (s : pstate) (c : carrier) : pstate * written :=
   if ps_opening s then
     let '(done, part, c', ok) := write_actions mb mm c (ps_pend s) in
-    (mkPS (ps_inb s) (if ok then Some c' else ps_out s) [] false, (done, part))
+    (set_opening (set_pend (if ok then set_out s (Some c') else s) []) false, (done, part))
   else (s, ([], 0)).
 
 (* TransportEvent::SubstreamOpenFailure for the requested substream *)
 Definition outbound_failed (s : pstate) : pstate :=
-  if ps_opening s then mkPS (ps_inb s) (ps_out s) [] false else s.
+  if ps_opening s then set_opening (set_pend s []) false else s.
+
+(* TransportEvent::ConnectionEstablished (the service had no connection to the peer) *)
+Definition conn_established (s : pstate) : pstate :=
+  if ps_conn s =? 0 then
+    let s1 := set_conn s 1 in
+    if ps_dial s then set_opening (set_dial s1 false) true else s1
+  else s.
+
+(* TransportEvent::ConnectionClosed: everything tied to the peer is forgotten *)
+Definition conn_closed (s : pstate) : pstate :=
+  if ps_conn s =? 0 then s else mkPS false None [] false 0 false (ps_mgr s).
+
+(* the connection's command channel is gone: open_substream fails from now on *)
+Definition conn_killed (s : pstate) : pstate :=
+  if ps_conn s =? 1 then set_conn s 2 else s.
+
+(* TransportEvent::DialFailure *)
+Definition dial_failed (s : pstate) : pstate :=
+  if ps_dial s then set_pend (set_dial s false) [] else s.
+
+(* ------------------------------------------------------------------ the event loop: one peer, then the node *)
+
+Section Node.
+  Variable D : Type.
+  Variable digest : N -> D -> option (list N).
+  Variable mb : N.
+  Variable mm : N.
+
+  (* everything that can happen to the loop with respect to one peer: the TransportEvents of the
+     service, the commands of the user, what arrives on the inbound substream, and two changes
+     of the environment that the loop only notices later (the write side of the outbound
+     substream, the answer the transport manager will give to dial) *)
+  Inductive pev :=
+  | PInOpen                      (* SubstreamOpened, inbound: replaces the previous one *)
+  | PInFrame (m : message D)     (* a complete frame that decodes, on the inbound substream *)
+  | PInBad                       (* the inbound substream ends (see in_item) *)
+  | PSend (a : action)           (* BitswapCommand::SendRequest / SendResponse *)
+  | POutOpen (c : carrier)       (* SubstreamOpened, outbound *)
+  | POutFail                     (* SubstreamOpenFailure *)
+  | POutSet (c : carrier)        (* the established outbound substream changes its write side *)
+  | PConnClose                   (* ConnectionClosed *)
+  | PConnect                     (* ConnectionEstablished *)
+  | PKill                        (* the connection's command channel dies *)
+  | PDialFail                    (* DialFailure *)
+  | PForce (tag : N).            (* the manager's answer to dial from now on *)
+
+  (* what the user is told and what is written: BitswapEvents come from inbound frames only;
+     no failure of any kind is reported to the user *)
+  Definition pout := (list (event D) * written)%type.
+  Definition quiet : pout := ([], ([], 0)).
+
+  Definition peer_step (s : pstate) (e : pev) : pstate * pout :=
+    match e with
+    | PInOpen => (if ps_conn s =? 0 then s else set_inb s true, quiet)
+    | PInFrame m => (s, (if ps_inb s then msg_events D digest m else [], ([], 0)))
+    | PInBad => (set_inb s false, quiet)
+    | PSend a => let '(s', w) := send_action mb mm s a in (s', ([], w))
+    | POutOpen c => let '(s', w) := outbound_opened mb mm s c in (s', ([], w))
+    | POutFail => (outbound_failed s, quiet)
+    | POutSet c => (set_out s (match ps_out s with Some _ => Some c | None => None end), quiet)
+    | PConnClose => (conn_closed s, quiet)
+    | PConnect => (conn_established s, quiet)
+    | PKill => (conn_killed s, quiet)
+    | PDialFail => (dial_failed s, quiet)
+    | PForce tag => (set_mgr s tag, quiet)
+    end.
+
+  (* a history of one peer: final state, the events the user saw, the complete messages written *)
+  Fixpoint run_peer (s : pstate) (es : list pev) : pstate * list (event D) * list omsg :=
+    match es with
+    | [] => (s, [], [])
+    | e :: t =>
+        let '(s1, (evs, (done, _))) := peer_step s e in
+        let '(s2, evs2, done2) := run_peer s1 t in
+        (s2, evs ++ evs2, done ++ done2)
+    end.
+
+  (* the node: one pstate per peer; an operation concerns exactly one peer *)
+  Definition get_ps (st : list pstate) (p : N) : pstate := nth (N.to_nat p) st ps_init.
+
+  Fixpoint set_ps (st : list pstate) (p : nat) (s : pstate) : list pstate :=
+    match st, p with
+    | [], _ => []
+    | _ :: t, O => s :: t
+    | h :: t, S q => h :: set_ps t q s
+    end.
+
+  Definition node_step (st : list pstate) (pe : N * pev) : list pstate * pout :=
+    let '(s', o) := peer_step (get_ps st (fst pe)) (snd pe) in
+    (set_ps st (N.to_nat (fst pe)) s', o).
+
+  (* a history of the node: the events with the peer they are attributed to, and the messages
+     with the peer whose substream they were written to *)
+  Fixpoint run_node_ops (st : list pstate) (ops : list (N * pev))
+    : list pstate * list (N * event D) * list (N * omsg) :=
+    match ops with
+    | [] => (st, [], [])
+    | pe :: t =>
+        let '(st1, (evs, (done, _))) := node_step st pe in
+        let '(st2, evs2, done2) := run_node_ops st1 t in
+        (st2, map (pair (fst pe)) evs ++ evs2, map (pair (fst pe)) done ++ done2)
+    end.
+End Node.
+
+Arguments PInOpen {D}.
+Arguments PInFrame {D}.
+Arguments PInBad {D}.
+Arguments PSend {D}.
+Arguments POutOpen {D}.
+Arguments POutFail {D}.
+Arguments POutSet {D}.
+Arguments PConnClose {D}.
+Arguments PConnect {D}.
+Arguments PKill {D}.
+Arguments PDialFail {D}.
+Arguments PForce {D}.
